@@ -32,7 +32,7 @@ ASSUMPTIONS = ["model signatures and group sums (vf/model/blssig.py, bls12381.py
 ENGINE = "hypothesis"
 TECHNIQUE = ("property-based testing (Hypothesis): metamorphic perturbations of signer sets judged by an exact acceptance predicate computed by an independent model")
 PERTS = ("none", "permute", "regroup", "drop_sig", "dup_sig", "subst_sig", "drop_signer", "swap_msgs", "swap_keys",
-         "extra_msg", "drop_msg", "dup_msg", "extra_key", "neg_agg", "agg_plus_sig", "agg_plus_torsion", "agg_bitflip", "agg_identity",
+         "extra_msg", "drop_msg", "dup_msg", "extra_key", "neg_agg", "agg_plus_sig", "agg_plus_torsion", "agg_bitflip", "agg_uncompressed", "agg_identity",
          "key_identity", "key_non_subgroup", "key_cancel_pair", "key_malformed", "empty")
 _REQ = ([f"pert:{p}" for p in PERTS] +
         ["entry:AggregateVerify:basic", "entry:AggregateVerify:aug", "entry:AggregateVerify:pop",
@@ -380,6 +380,10 @@ def build(t):
     if pert == "agg_bitflip":
         v = int.from_bytes(agg, "big") ^ (1 << (a % 768))
         agg = v.to_bytes(96, "big")
+    elif pert == "agg_uncompressed" and A is not None:
+        # the right point in the 192-byte uncompressed serialization: not the canonical encoding of the sum
+        (x0_, x1_), (y0_, y1_) = A
+        agg = b"".join(v.to_bytes(48, "big") for v in (x1_, x0_, y1_, y0_))
     elif pert == "agg_identity" or (pert == "empty" and a % 2 == 0):
         agg = B.signature_bytes(None)       # empty product of pairings equals one: must still be refused
     if fast and not msgs:
@@ -438,8 +442,12 @@ def s_aggregate():
             case["groups"] = [list(range(0, lo)), list(range(lo, hi)), list(range(hi, n))]
         elif kind == 3:
             k = a % (n + 1)
+            unc = bytes(192)
+            if sigs and B.signature_point(sigs[0]) is not None:
+                (x0_, x1_), (y0_, y1_) = B.signature_point(sigs[0])         # the uncompressed form of a valid entry
+                unc = b"".join(v.to_bytes(48, "big") for v in (x1_, x0_, y1_, y0_))
             bad = [b"", sigs[0][:95] if sigs else b"\x00" * 95, (sigs[0] if sigs else b"\xc0" + bytes(95)) + b"\x00",
-                   bytes(48)][a % 4]
+                   bytes(48), unc][a % 5]
             case["sigs"] = [hx(s) for s in sigs[:k] + [bad] + sigs[k:]]
         elif kind == 4:
             case["sigs"] = []
